@@ -284,6 +284,24 @@ SeqOkP(x, w) == (x["A"].st = "ESTABLISHED" /\ x["B"].st = "ESTABLISHED") =>
            \A e \in E : (x[e].vs + M - x[Peer(e)].vr) % M = (QueuedI(x[e]) + InFlightI(w[e])) % M
 SeqOk == SeqOkP(ep, wire)
 
+\* the inductive invariant of LlcpWindow.tla under the refinement mapping (direction e -> Peer(e)):
+\*   vs, vsa = x[e].vs, x[e].vsa;  vr, vra, confs = x[p].vr, x[p].vra, x[p].confs;  rq = I PDUs in x[p].rq;
+\*   nI = I PDUs queued at e or on the wire e -> p;  acks = N(R) values on the wire p -> e
+\* LlcpWindow proves it inductive for M = 16 and every window (Apalache); here it is checked on the
+\* implementation-shaped model and, through Trace_LlcpDlc / Trace_LlcpDlcT, after every step of the real code.
+Dist(a, b) == (b + M - a) % M
+RqI(s) == Cardinality({i \in DOMAIN s.rq : s.rq[i].t = "I"})
+WireNr(w) == UNION {{f[j].nr : j \in {k \in DOMAIN f : f[k].t \in {"I", "RR", "RNR"}}} : f \in {w[i] : i \in DOMAIN w}}
+WinIndP(x, w) == (x["A"].st = "ESTABLISHED" /\ x["B"].st = "ESTABLISHED") =>
+    \A e \in E : LET p == Peer(e)
+                     nI == QueuedI(x[e]) + InFlightI(w[e])
+                 IN /\ Dist(x[p].vra, x[p].vr) = x[p].confs + RqI(x[p])
+                    /\ Dist(x[p].vr, x[e].vs) = nI
+                    /\ Dist(x[e].vsa, x[p].vra) + x[p].confs + RqI(x[p]) + nI = Dist(x[e].vsa, x[e].vs)
+                    /\ Dist(x[e].vsa, x[e].vs) <= x[e].rwR
+                    /\ \A n \in WireNr(w[p]) : Dist(x[e].vsa, n) <= Dist(x[e].vsa, x[p].vra)
+WinInd == WinIndP(ep, wire)
+
 \* nothing accepted is lost: when everything has drained, delivered = accepted
 Quiescent == /\ BothUp /\ \A e \in E : ep[e].sq = <<>> /\ wire[e] = <<>> /\ ep[e].rq = <<>>
 NoLoss == Quiescent => \A e \in E : delivered[Peer(e)] = accepted[e]
